@@ -17,6 +17,8 @@ LEVEL_TEXT = ("about 1e4 (quick) / 6e5 (thorough) perturbed vectors over finite/
               "one or two samplers; every entry compared with the model; bounded sampling, not a proof")
 LEVEL_NOTE = "trusted: the boundary-type model in this file; MIRROR_BOTH is only required to land inside the bounds when a single reflection does not"
 ANCHOR_FILES = ["src/ropt/ensemble_evaluator/_gradient.py", "src/ropt/config/enopt/_gradient_config.py"]
+EXECUTION_COUNTERS = ["entries_checked"]   # executions of the oracle inside the cases (reported as coverage.evaluations)
+CONTRACT_GROUPS = ['C10']   # icontract layer (vlib/contracts.py) active inside the workload and in the repository's own tests
 RULE = ("case = one configuration with R x P injected sample vectors; an entry is non-trivial if its raw value x + m*s lies outside the bounds (boundary semantics exercised) "
         "- counted per boundary type; a case is non-trivial if it has such an entry; distinct key = case index")
 ASSUMPTIONS = ["variables inside the bounds; magnitudes positive"]
